@@ -35,6 +35,9 @@ type boundedResult struct {
 	Log     string  `json:"-"`
 }
 
+// boundTier is handed to the test as VFY_BOUND_TIER (a test may enlarge its bound in the thorough tier).
+var boundTier = "quick"
+
 func runBounded(b boundedSpec) boundedResult {
 	res := boundedResult{boundedSpec: b}
 	t0 := time.Now()
@@ -54,7 +57,7 @@ func runBounded(b boundedSpec) boundedResult {
 	defer cancel()
 	cmd := exec.CommandContext(ctx, "go", "test", "-overlay", ovFile, "-vet=off", "-v", "-count=1", "-timeout", "240s", "-run", "^"+b.Test+"$", ".")
 	cmd.Dir = pkgDir
-	cmd.Env = append(goEnv(), "GOMEMLIMIT=2GiB")
+	cmd.Env = append(goEnv(), "GOMEMLIMIT=2GiB", "VFY_BOUND_TIER="+boundTier)
 	out, _ := cmd.CombinedOutput()
 	res.Log = string(out)
 	res.Seconds = round3(time.Since(t0).Seconds())
